@@ -435,6 +435,9 @@ class Conic(Quadric):
         if isinstance(other, Conic):
             if other.is_degenerate:
                 g, h = other.components
+            elif self.is_degenerate:
+                # intersect the non-degenerate conic with the components of this one
+                return other.intersect(self)
             else:
                 a1, a2, a3 = self.array
                 b1, b2, b3 = other.array
